@@ -277,6 +277,10 @@ func (w *nullWriter) Header() http.Header         { return w.h }
 func (w *nullWriter) Write(p []byte) (int, error) { return len(p), nil }
 func (w *nullWriter) WriteHeader(int)             {}
 
+// rawPath, when set, gives the request an encoded spelling next to the decoded path (what the URL
+// parser does for escapes it does not consider canonical): dispatch goes by the decoded path
+var rawPath = false
+
 func (b *bench) serve(mux *httpd.Mux, path, method string) (o *obs) {
 	o = &obs{}
 	b.cur = o
@@ -285,7 +289,14 @@ func (b *bench) serve(mux *httpd.Mux, path, method string) (o *obs) {
 			o.paniced = r
 		}
 	}()
-	mux.ServeHTTP(&nullWriter{h: http.Header{}}, &http.Request{Method: method, URL: &url.URL{Path: path}, RequestURI: path, Header: http.Header{}})
+	u := &url.URL{Path: path}
+	if rawPath {
+		u.RawPath = strings.NewReplacer("a", "%61", "/", "%2F", ":", "%3A", "*", "%2A").Replace(path)
+		if strings.HasPrefix(path, "/") {
+			u.RawPath = "/" + strings.TrimPrefix(u.RawPath, "%2F")
+		}
+	}
+	mux.ServeHTTP(&nullWriter{h: http.Header{}}, &http.Request{Method: method, URL: u, RequestURI: path, Header: http.Header{}})
 	return o
 }
 
@@ -352,6 +363,14 @@ func (b *bench) checkTable(table []int, paths []string, st *stats) {
 		desc := "{" + strings.Join(d, ", ") + "}"
 		if !b.judgeTable(mux, p, registered, desc, paths, st, pi == 0) {
 			return
+		}
+		if pi == 0 && len(registered) > 0 && len(table) <= 1 {
+			rawPath = true
+			ok := b.judgeTable(mux, p, registered, desc+" with URL.RawPath set", paths, st, false)
+			rawPath = false
+			if !ok {
+				return
+			}
 		}
 		if pi == 0 && len(registered) > 0 && len(table) <= 2 {
 			// a handler panic (one per kind of route in the table, and one in the no-route handler)
